@@ -71,4 +71,24 @@ void ctl_unbounded_copy_ok(const uint8_t* buffer, uint64_t record_length) {
     (void)b;
 }
 
+uint8_t* ctl_dangling(FILE* in, uint64_t count) {
+    uint8_t* bytes = (uint8_t*)malloc(count + 1);
+    if (fread(bytes, 1, count, in) < count) {
+        free(bytes);
+    } else {
+        bytes[count] = 0;
+    }
+    return bytes;
+}
+uint8_t* ctl_dangling_ok(FILE* in, uint64_t count) {
+    uint8_t* bytes = (uint8_t*)malloc(count + 1);
+    if (fread(bytes, 1, count, in) < count) {
+        free(bytes);
+        bytes = NULL;
+    } else {
+        bytes[count] = 0;
+    }
+    return bytes;
+}
+
 }  // namespace controls
